@@ -64,6 +64,9 @@ type cellResult struct {
 	Runs      int      `json:"runs"`
 }
 
+// reqRepeats: how often the request body of a race cell sends its request.
+const reqRepeats = 12
+
 func runCellFree(sc scenario, order, reps int, base string) (res cellResult) {
 	for rep := 0; rep < reps; rep++ {
 		a, err := build(base, true)
@@ -101,12 +104,19 @@ func runCellFree(sc scenario, order, reps int, base string) (res cellResult) {
 		var bodies []func()
 		if sc.req >= 0 {
 			ri := sc.req
+			// The request is sent several times back to back: an access that has left
+			// its lock is reported only if the writer falls between two lock operations
+			// of the request, and every repetition offers that window anew at another
+			// offset into the operation.
 			bodies = append(bodies, func() {
-				resp, req, err := requests[ri].run(a)
-				if msg := wellFormed(resp, req, err); msg != "" {
-					mu.Lock()
-					res.Malformed = append(res.Malformed, msg)
-					mu.Unlock()
+				for k := 0; k < reqRepeats; k++ {
+					resp, req, err := requests[ri].run(a)
+					if msg := wellFormed(resp, req, err); msg != "" {
+						mu.Lock()
+						res.Malformed = append(res.Malformed, msg)
+						mu.Unlock()
+						return
+					}
 				}
 			})
 		}
@@ -1051,7 +1061,38 @@ func phaseEscape(c *lib.Ctx) {
 	check("Find", b1, showP(p1))
 	check("FindByName", b2, showP(p2))
 	check("FindLoose", b3, showP(p3))
-	c.Sample(ecase{Engine: "escape", Getter: "ClientRuntime, Find, FindByName, FindLoose"})
+	// The deadline of a protection pause: status readers (dns_info, status, the
+	// configuration writer) keep the pointer and read through it after every lock
+	// is released, so a later pause must not write through it.
+	if code, body = a.call("POST", "/control/protection", `{"enabled":false,"duration":60000}`); code != 200 {
+		c.EngineError(fmt.Sprintf("escape probe: protection answered %d %s", code, body))
+		return
+	}
+	showT := func(t *time.Time) string {
+		if t == nil {
+			return "<nil>"
+		}
+		return t.UTC().Format(time.RFC3339Nano)
+	}
+	_, until := a.filter.ProtectionStatus()
+	var disk filtering.Config
+	a.filter.WriteDiskConfig(&disk)
+	bt, bd := showT(until), showT(disk.ProtectionDisabledUntil)
+	if until == nil {
+		c.EngineError("escape probe: no deadline after a timed pause")
+		return
+	}
+	if code, body = a.call("POST", "/control/protection", `{"enabled":false,"duration":7200000}`); code != 200 {
+		c.EngineError(fmt.Sprintf("escape probe: second protection call answered %d %s", code, body))
+		return
+	}
+	check("ProtectionStatus", bt, showT(until))
+	check("WriteDiskConfig.ProtectionDisabledUntil", bd, showT(disk.ProtectionDisabledUntil))
+	if _, now := a.filter.ProtectionStatus(); now == nil || !now.After(until.Add(time.Hour)) {
+		c.EngineError("escape probe: the second pause did not move the deadline: " + showT(now))
+	}
+	a.call("POST", "/control/protection", `{"enabled":true}`)
+	c.Sample(ecase{Engine: "escape", Getter: "ClientRuntime, Find, FindByName, FindLoose, ProtectionStatus, WriteDiskConfig"})
 }
 
 func run(c *lib.Ctx) {
